@@ -7,6 +7,7 @@
 #include <sstream>
 #include <climits>
 #include <iomanip>
+#include <locale>
 #include <mutex>
 #include <vector>
 
@@ -528,6 +529,66 @@ VP_EXHAUSTIVE (text_stream_states, 65536, 65536, "every finite half pattern thro
         is >> y;
         VP_REQUIRE (c, !is.fail (), "text-parse-failed-state", "stream state " << st << ": cannot parse '" << in << "' printed for 0x" << std::hex << h);
         VP_REQUIRE (c, y.bits () == h, "text-roundtrip-state", "stream state " << st << ": half 0x" << std::hex << h << " -> '" << txt << "' -> 0x" << y.bits ());
+    }
+    c.nt (f != std::floor (f) || h == 0x8000);
+}
+
+// ---- text: values followed directly by a non-blank delimiter, and streams carrying a numeric locale
+struct C03CommaPunct : std::numpunct<char>
+{
+    char        do_decimal_point () const override { return ','; }
+    char        do_thousands_sep () const override { return '.'; }
+    std::string do_grouping () const override { return "\3"; }
+};
+static const std::locale& c03_comma_locale ()
+{
+    static const std::locale loc (std::locale::classic (), new C03CommaPunct);
+    return loc;
+}
+
+VP_EXHAUSTIVE (text_records_and_locale, 65536, 65536, "every finite half pattern x (paired with a second finite pattern y): (1) the record 'x<d>y<d>' for the delimiters , ; ) : written with operator<< and read back with `is >> a >> ch >> b >> ch` - a value followed directly by a non-blank character; (2) both streams imbued with a numeric locale (decimal comma, grouped digits): the text equals the float's text in that locale and reads back bit-exactly; non-trivial = value not an integer or negative zero")
+{
+    uint16_t h = (uint16_t) idx;
+    if ((h & 0x7c00) == 0x7c00)
+    {
+        c.bulk (0, 0);
+        return;
+    }
+    uint16_t g = (uint16_t) (h * 40503u + 12345u);
+    if ((g & 0x7c00) == 0x7c00) g &= 0xbfff;
+    half x, y;
+    x.setBits (h);
+    y.setBits (g);
+    float f = u2f (H2F[h]);
+    VP_NOTE (c, "halfs 0x" << std::hex << h << " 0x" << g << " as delimited records and under a decimal-comma locale");
+    static const char DEL[4] = { ',', ';', ')', ':' };
+    for (int k = 0; k < 4; ++k)
+    {
+        std::ostringstream os;
+        os << x << DEL[k] << y << DEL[k];
+        std::istringstream is (os.str ());
+        half               a, b;
+        char               c1 = 0, c2 = 0;
+        a.setBits (0x5555);
+        b.setBits (0x5555);
+        is >> a >> c1 >> b >> c2;
+        VP_REQUIRE (c, !is.fail () && c1 == DEL[k] && c2 == DEL[k], "text-record-parse-failed", "cannot read back the record '" << os.str () << "' (two halfs, each followed by '" << DEL[k] << "')");
+        VP_REQUIRE (c, a.bits () == h && b.bits () == g, "text-record-roundtrip", "record '" << os.str () << "' reads back as 0x" << std::hex << a.bits () << " 0x" << b.bits () << " instead of 0x" << h << " 0x" << g);
+    }
+    {
+        std::ostringstream os, of;
+        os.imbue (c03_comma_locale ());
+        of.imbue (c03_comma_locale ());
+        os << x;
+        of << f;
+        VP_REQUIRE (c, os.str () == of.str (), "text-format-locale", "under a decimal-comma locale operator<< prints '" << os.str () << "' for half 0x" << std::hex << h << " but the float value prints '" << of.str () << "'");
+        std::istringstream is (os.str ());
+        is.imbue (c03_comma_locale ());
+        half z;
+        z.setBits (0x5555);
+        is >> z;
+        VP_REQUIRE (c, !is.fail (), "text-parse-failed-locale", "cannot parse '" << os.str () << "' (decimal-comma locale) printed for 0x" << std::hex << h);
+        VP_REQUIRE (c, z.bits () == h, "text-roundtrip-locale", "decimal-comma locale: half 0x" << std::hex << h << " -> '" << os.str () << "' -> 0x" << z.bits ());
     }
     c.nt (f != std::floor (f) || h == 0x8000);
 }
